@@ -275,6 +275,26 @@ func checkFlowTable(p *load.Program, r *oblig.Report, rule string, table []byte,
 			sort.Strings(want)
 			r.Check(sameSources(want, got[d]), rule, name+" → "+d, p.Pos(fn.Pos()), strings.Join(want, " ;; "), strings.Join(got[d], " ;; "))
 		}
+		// a reviewed field that is now also written another way (element by element where it used to be assigned as a
+		// whole, or the reverse) has an unreviewed writer
+		var extra []string
+		for d := range got {
+			if _, reviewed := ref.Flows[d]; reviewed {
+				continue
+			}
+			base := strings.TrimSuffix(d, "[]")
+			_, whole := ref.Flows[base]
+			_, elems := ref.Flows[base+"[]"]
+			if (base != d && whole) || (base == d && elems) {
+				extra = append(extra, d+" ← "+strings.Join(got[d], " ;; "))
+			}
+		}
+		sort.Strings(extra)
+		if len(extra) > 0 {
+			r.Bad(rule, name+" → no other writer of the reviewed fields", p.Pos(fn.Pos()), "the fields listed in the table are written only in the reviewed way", strings.Join(extra, "; "))
+		} else {
+			r.OK(rule, name+" → no other writer of the reviewed fields", p.Pos(fn.Pos()), "no unreviewed element/whole writer of a reviewed field")
+		}
 	}
 	r.RequireCount(rule, n, min)
 }
